@@ -87,7 +87,15 @@ func (s *badgerStore) CheckAndSaveNonce(ID string, nonce int64) error {
 		}
 
 		if s.nonceExpire > 0 {
-			return setExpiringItem(txn, key, &nonce, s.nonceExpire)
+			// The record must outlive the time during which this nonce (or a
+			// lower one) can still pass the freshness check above: a nonce
+			// ahead of our clock stays fresh for longer than nonceExpire from
+			// now. Records expire on whole seconds, so round up.
+			ttl := s.nonceExpire + time.Second
+			if ahead := time.Duration(nonce - time.Now().UnixNano()); ahead > 0 {
+				ttl += ahead
+			}
+			return setExpiringItem(txn, key, &nonce, ttl)
 		}
 		return setItem(txn, key, &nonce)
 	})
